@@ -188,14 +188,14 @@ func formatErrLine(r RunResult) string {
 // whatever it inherited from the top level. Nothing set there may reach the package under test.
 func decoyPackages(tdLines []string) (string, map[string]string) {
 	var b strings.Builder
-	b.WriteString("  example.com/m/decoy:\n    config:\n      all: true\n      recursive: true\n")
+	b.WriteString("  example.com/m/decoy:\n    config:\n      all: true\n      dir: \"{{.InterfaceDir}}\"\n      pkgname: \"{{.SrcPackageName}}\"\n      recursive: true\n")
 	if len(tdLines) > 0 {
 		b.WriteString("      template-data:\n")
 		for _, l := range tdLines {
 			b.WriteString("        " + l + "\n")
 		}
 	}
-	b.WriteString("  example.com/m/decoy/inner:\n    config:\n      all: true\n")
+	b.WriteString("  example.com/m/decoy/inner:\n    config:\n      all: true\n      dir: \"{{.InterfaceDir}}\"\n      pkgname: \"{{.SrcPackageName}}\"\n")
 	files := map[string]string{
 		"decoy/d.go":       "package decoy\n\ntype D interface{ Ping(x int) error }\n",
 		"decoy/inner/i.go": "package inner\n\ntype In interface{ Pong(xs ...string) (int, error) }\n",
